@@ -158,11 +158,30 @@ def compile_units(run, units, deps, profile, vmon, tag, extra_head="", nshards=N
                        extern_name=extern_name, extra=extra_rustc)
         return (u, c, src)
 
+    def bare_ok(u):
+        """True unless the unit's enum, stripped of everything strum, is itself rejected by rustc (generator error)."""
+        bs = u.meta.get("bare_src") if isinstance(u.meta, dict) else None
+        if not bs:
+            return True
+        frags = u.head if isinstance(u.head, (list, tuple)) else [u.head]
+        src = SHARD_HEAD + extra_head + "".join(fr for fr in frags if fr) + "\npub mod bare {\n    use super::*;\n" + bs + "\n}\n"
+        sp = run.path("%s_%s_bare_%s.rs" % (tag, profile["name"], u.name))
+        with open(sp, "w") as fh:
+            fh.write(src)
+        cb = core.rustc(sp, sp[:-3] + ".rmeta", deps, crate_type="lib", extra=["--emit=metadata"] + list(extra_rustc), vmon=vmon,
+                        extern_name=extern_name)
+        if not cb.ok:
+            run.count("corpus/invalid-by-itself")
+            log("[corpus] %s: generated enum is invalid Rust even without strum (%s) - dropped, not a verdict" % (u.name, diag_summary(cb)[:200]))
+        return cb.ok
+
     single_res = core.pmap(build_single, singles)
     bad_names = set()
     for u, c, src in single_res:
         if not c.ok:
             bad_names.add(u.name)
+            if not bare_ok(u):
+                continue
             summ = diag_summary(c)
             run.count("compile/corpus-enum-rejected")
             run.violation(
@@ -193,6 +212,8 @@ def compile_units(run, units, deps, profile, vmon, tag, extra_head="", nshards=N
         for u, c, src in res2:
             if c.ok:
                 ok_units.append(u)
+                continue
+            if not bare_ok(u):
                 continue
             summ = diag_summary(c)
             run.count("compile/corpus-enum-rejected")
